@@ -9,6 +9,7 @@ import pickle
 import time
 
 from .system_class import load_file
+from .DNA_classes import wc
 from .utils import match, warning, error
 
 def parse_fixed(line):
@@ -28,6 +29,19 @@ def load_fixed(filename):
   f = open(filename, "r")
   return [parse_fixed(line) for line in f if not re.match(r"\s*(#.*)?\s*\Z", line)]
   
+def fix_signal(system, name, fixed_seq):
+  """Fix every sequence bound to a signal, following the signal into sub-systems."""
+  for seq in system.signals[name]:
+    if isinstance(seq[0], str): # A signal of a sub-system, so it's just a name
+      if not seq[2]:
+        fix_signal(system.components[seq[1]], seq[0], fixed_seq)
+      else:
+        fix_signal(system.components[seq[1]], seq[0], wc(fixed_seq))
+    elif not seq[2]:
+      seq[0].fix_seq( fixed_seq )
+    else:
+      seq[0].wc.fix_seq( fixed_seq )
+
 def compiler(basename, args, outputname, savename, fixed_file=None, synth=False, includes=None):
   """
   Start compiling a specification.
@@ -52,14 +66,10 @@ def compiler(basename, args, outputname, savename, fixed_file=None, synth=False,
         # As a small hack, fix the first sequence in the list for the signal.
         try:
           seqs = system.signals[name]
-        except KeyError:
+        except (KeyError, AttributeError): # A component has no signals at all
           warning("Signal {} in fixed sequences not found/used in system.".format(name))
         else:
-          for seq in seqs:
-            if not seq[2]:
-              seq[0].fix_seq( fixed_seq )
-            else:
-              seq[0].wc.fix_seq( fixed_seq )
+          fix_signal(system, name, fixed_seq)
       elif type_ == "strand":
         try:
           system.strands[name].fix_seq( fixed_seq )
